@@ -231,10 +231,21 @@ class SymInt:
             return SymInt(y, 0, o.p - 1)
         lo, hi = _iv_mul((s.lo, s.hi), _rng(o))
         p = _cong2(s, o); cong = None
+        def mul2(xt, xr, yt, yr):
+            # a factor known to lie in {0,1} turns the product into an ite (keeps goals linear)
+            def small(r): return None not in r and r[1] - r[0] <= 2
+            def split(ft, fr, ot):
+                out = z3.IntVal(fr[1]) * ot
+                for v in range(fr[1] - 1, fr[0] - 1, -1):
+                    out = z3.If(ft == v, z3.IntVal(v) * ot, out)
+                return out
+            if small(xr) and not z3.is_int_value(xt): return split(xt, xr, yt)
+            if small(yr) and not z3.is_int_value(yt): return split(yt, yr, xt)
+            return _mulite(xt, yt)
         if p:
             a, b = _u_of(s, p), _u_of(o, p)
-            cong = (U(_mulite(a.t, b.t), *_iv_mul((a.lo, a.hi), (b.lo, b.hi))), p)
-        return SymInt(_mulite(s.t, _t(o)), lo, hi, cong)
+            cong = (U(mul2(a.t, (a.lo, a.hi), b.t, (b.lo, b.hi)), *_iv_mul((a.lo, a.hi), (b.lo, b.hi))), p)
+        return SymInt(mul2(s.t, (s.lo, s.hi), _t(o), _rng(o)), lo, hi, cong)
     __rmul__ = __mul__
     def __neg__(s):
         cong = None
